@@ -197,19 +197,19 @@ def make_copy(instrument=True, extra_files=None):
 EXTRA_ADDER = {"adder/zz_verif.go": "package adder\n\n// VerifSetMaxCells overrides the table-size limit (scratch copy only).\nfunc VerifSetMaxCells(n int) { maxCells = n }\n\n// VerifMaxCells returns the current limit.\nfunc VerifMaxCells() int { return maxCells }\n"}
 
 
-def build_harness(name, go="go"):
+def build_harness(name, go="go", gover="1.23", test_binary=False, repo_dir="repo"):
     """build /verif/harness/<name> against the scratch copy; returns (binary or None, output)"""
     s = scratch_dir()
     hdst = os.path.join(s, "h_" + name)
     shutil.rmtree(hdst, ignore_errors=True)
     shutil.copytree(os.path.join(HARNESS, name), hdst)
-    gover = "1.23"
     open(os.path.join(hdst, "go.mod"), "w").write(
         f"module garrharness/{name}\n\ngo {gover}\n\nrequire go.linecorp.com/garr v0.0.0\nrequire garrshim v0.0.0\nrequire github.com/valyala/fastrand v1.1.0\n"
-        "replace go.linecorp.com/garr => ../repo\nreplace garrshim => ../shim\nreplace github.com/valyala/fastrand => ../shim/fastrand\n")
+        f"replace go.linecorp.com/garr => ../{repo_dir}\n" "replace garrshim => ../shim\nreplace github.com/valyala/fastrand => ../shim/fastrand\n")
     shutil.copy2(os.path.join(s, "repo", "go.sum"), os.path.join(hdst, "go.sum")) if os.path.exists(os.path.join(s, "repo", "go.sum")) else None
     binp = os.path.join(s, "bin_" + name)
-    rc, out = sh([go, "build", "-o", binp, "."], cwd=hdst, env=GOENV, timeout=900)
+    cmd = [go, "test", "-c", "-o", binp, "."] if test_binary else [go, "build", "-o", binp, "."]
+    rc, out = sh(cmd, cwd=hdst, env=GOENV, timeout=900)
     if rc != 0:
         return None, out[-3000:]
     return binp, out
@@ -453,4 +453,93 @@ def run_conc(res, binp, mode, acceptor, seed, total, extra=(), tag=None, label=N
     if outs and outs[0]["progs"]:
         k0 = sorted(outs[0]["progs"])[0]
         res.samples.append({"mode": label, "program": outs[0]["progs"][k0], "model_verdict": outs[0]["first_accept"]})
+    return agg
+
+
+# ----------------------------------------------------------------------------- worker pool: synctest scenarios + subset-construction acceptance
+
+
+def pool_shard(binp, seed, first, runs, tmpdir, idx, test="TestScenarios"):
+    trp = os.path.join(tmpdir, f"pooltr_{idx}_{first}.txt")
+    monp = os.path.join(tmpdir, f"poolmon_{test}_{idx}_{first}.txt")
+    env = dict(os.environ, POOL_SEED=str(seed), POOL_FIRST=str(first), POOL_RUNS=str(runs), POOL_TRACE=trp, POOL_MON=monp)
+    p = subprocess.run([binp, "-test.run", f"^{test}$", "-test.timeout", "3600s"], env=env, stdout=subprocess.PIPE, stderr=subprocess.STDOUT, text=True)
+    o = {"accepted": 0, "rejected": [], "mon_ok": 0, "monfail": [], "crash": None, "progs": {}, "first_accept": None,
+         "cmd": f"POOL_SEED={seed} POOL_FIRST={first} POOL_RUNS={runs} {binp} -test.run ^{test}$", "maxrunning": 0}
+    last_run = None
+    try:
+        for line in open(monp):
+            line = line.rstrip("\n")
+            if line.startswith("RUN "):
+                _, k, d = line.split(" ", 2)
+                o["progs"][int(k)] = d
+                last_run = int(k)
+            elif line.startswith("MON "):
+                _, k, rest = line.split(" ", 2)
+                if rest.startswith("ok"):
+                    o["mon_ok"] += 1
+                    mm = re.search(r"maxrunning=(\d+)", rest)
+                    if mm:
+                        o["maxrunning"] = max(o["maxrunning"], int(mm.group(1)))
+                else:
+                    o["monfail"].append((int(k), rest))
+        os.unlink(monp)
+    except FileNotFoundError:
+        pass
+    if p.returncode != 0:
+        # a panic in a pool goroutine kills the test binary: the scenario that was running is the replay
+        o["crash"] = (last_run, p.stdout[-1500:])
+    if test == "TestScenarios" and os.path.exists(trp):
+        with open(trp) as f:
+            m = subprocess.run([MODEL_BIN, "pool"], stdin=f, stdout=subprocess.PIPE, stderr=subprocess.PIPE, text=True)
+        for line in m.stdout.split("\n"):
+            if line.startswith("ACCEPT "):
+                o["accepted"] += 1
+                if o["first_accept"] is None:
+                    o["first_accept"] = line[:300]
+            elif line.startswith("REJECT "):
+                o["rejected"].append(line[:900])
+        os.unlink(trp)
+    return o
+
+
+def run_pool(res, binp, seed, total, tag, test="TestScenarios", shards=None):
+    shards = shards or min(NCPU, max(1, total // 100))
+    per = (total + shards - 1) // shards
+    tmpdir = scratch_dir()
+    with ThreadPoolExecutor(max_workers=shards) as ex:
+        if test == "TestScenarios":
+            outs = list(ex.map(lambda k: pool_shard(binp, seed, k * per, per, tmpdir, k, test), range(shards)))
+        else:
+            outs = list(ex.map(lambda k: pool_shard(binp, seed * 100 + k, 0, per, tmpdir, k, test), range(shards)))
+    agg = {"runs": 0, "accepted": 0, "rejected": 0, "monitor_ok": 0, "monitor_failures": 0, "distinct_programs": 0, "max_simultaneously_running": 0}
+    progs = set()
+    label = "pool-" + test
+    for o in outs:
+        agg["accepted"] += o["accepted"]
+        agg["monitor_ok"] += o["mon_ok"]
+        agg["runs"] += len(o["progs"])
+        agg["max_simultaneously_running"] = max(agg["max_simultaneously_running"], o["maxrunning"])
+        progs.update(o["progs"].values())
+        if o["crash"]:
+            k, tail = o["crash"]
+            msg = "goroutine panic / crash of the test binary" if "panic" in tail else "test binary failed"
+            res.add(Problem("monitor", f"{label}: {msg} while running scenario: {o['progs'].get(k)}", {"output_tail": tail, "replay_cmd": o["cmd"]},
+                            key=(o["progs"].get(k) or "") + " crash"))
+        for line in o["rejected"]:
+            agg["rejected"] += 1
+            if agg["rejected"] <= 5:
+                res.add(Problem("correspondence", f"{label}: observation sequence of the real pool rejected by the Lean model", {"reject": line, "replay_cmd": o["cmd"]}, key=line[:200]))
+        for k, rest in o["monfail"]:
+            mm = re.match(r"FAIL (C\d+) (.*)", rest)
+            if mm and tag and mm.group(1) != tag:
+                continue
+            agg["monitor_failures"] += 1
+            if agg["monitor_failures"] <= 30:
+                res.add(Problem("monitor", f"{label}: {(mm.group(2) if mm else rest)[:600]}", {"scenario": o["progs"].get(k), "replay_cmd": o["cmd"] + f" (POOL_ONLY={k})"},
+                                key=(o["progs"].get(k) or "") + " " + rest[:200]))
+    agg["distinct_programs"] = len(progs)
+    if outs and outs[0]["progs"]:
+        k0 = sorted(outs[0]["progs"])[0]
+        res.samples.append({"mode": label, "scenario": outs[0]["progs"][k0], "model_verdict": outs[0]["first_accept"]})
     return agg
